@@ -188,7 +188,7 @@ def clip_to_bounds(array, bounds):
     lower, upper = check_bounds(bounds, np.size(bounds[0]), min_separation=0)
     clipped_array = array.copy()
 
-    if np.allclose(lower, np.min(lower)) and np.allclose(upper, np.max(upper)):
+    if np.all(lower == np.min(lower)) and np.all(upper == np.max(upper)):
         clipped_array = np.clip(clipped_array, np.min(lower), np.max(upper))
     else:
         if array.ndim != 2:
